@@ -93,7 +93,8 @@ CLAIMS = {
         '(AST: every function taking a buffer from a pool, each return classified as storage or copy, deferred Put; loader fields vs '
         'the fields reset() assigns) and the theorems "all sites copy" and "reset is total" are re-proved over it. Histories over 1-4 '
         'schema objects (valid, invalid, failing half-way) run on the real library with every returned value snapshotted and every '
-        'result compared with a fresh-process evaluation.',
+        'result compared with a fresh-process evaluation; also histories in which several schemas are given the SAME type and rule '
+        'objects (every answer must be the one the schema gives with objects of its own).',
    note='Trusted: Coq kernel incl. vm_compute; translator gotables PoolSites (syntactic alias classification); the semantics given to '
         'sync.Pool; harness. State outside pools and the loader (none known; package-level variables are C11/C09) is covered by the histories only.',
    technique='Coq proof over a pool/heap model + source-regenerated site inventory + history exploration against fresh-process results',
@@ -101,7 +102,7 @@ CLAIMS = {
  'C11': dict(
    category='other',
    text='Decided on the real code by a race-detector build of the harness: goroutines (2/4/16, GOMAXPROCS 1/2/4/16) working on their '
-        'own schema/regex/enum/JSON/number objects, and the six read operations called concurrently on shared schema objects; every '
+        'own schema/regex/enum/JSON/number objects, and the six read operations called concurrently on shared schema objects and on shared regex schema objects; every '
         'result is compared with the sequential result and every race report is a violation. Supporting Coq theorems: ErrOnce runs '
         'its function once and all callers get that result under any arrival order; a pool site that returns the buffer storage is '
         'overwritten under an interleaving (witness in the thread model); all pool sites of the current tree copy (regenerated table); '
@@ -116,10 +117,11 @@ CLAIMS = {
    text='Every `range` over a map in the repository (with the syntactic class of its loop body) and every %p verb is re-derived from '
         'source with go/types on every run; the theorem C09_sites_accounted says each one is an accounted site, and each accounted '
         'loop shape is order-free by a generic Coq theorem quantified over all visiting orders (first match with mutually exclusive '
-        'keys; copying entries with distinct keys; clearing a map; collect-sort-walk). A new map range, a dropped sort or a new '
+        'keys; copying entries with distinct keys - also only the missing ones -; clearing a map; collect-sort-walk). A new map range, a dropped sort or a new '
         'pointer format breaks the obligation. The premises of the generic theorems at each site are argued in DESIGN, and every '
         'input is run 8x in one process, in 3 processes (one with GOGC=1) and under permutations of AddType/AddRule in both '
-        'registration styles with all public results (incl. a hash of the error message) compared byte for byte.',
+        'registration styles with all public results (incl. a hash of the error message) compared byte for byte; chains of '
+        'registrations, one object per type used again by every repetition, one regex schema object asked several times.',
    note='Trusted: Coq kernel incl. vm_compute; translator gotables NondetSites (go/types with the source importer); the per-site argument '
         'that the premises hold (one type rule per node; distinct copied keys); harness. Goroutine scheduling is C11.',
    technique='Coq proofs of order-freeness per loop shape + source-regenerated inventory of map ranges + repetition/permutation exploration',
@@ -133,7 +135,7 @@ CLAIMS = {
         'tables to `visited`), never fails with a code, and more fuel never changes its verdict (C06_checker_decides) - so both '
         'directions hold outright (C06_instantiable_accepted, C06_self_requiring_reported); the example builder terminates within an explicit fuel bound (each type expanded at most twice on a path) and the '
         'bytes it writes form an RFC 8259 value (Spec/JsonGrammar.v). Tie: model vs Check()/Example() on all graphs over root + 2 types '
-        'with every edge kind, chains up to length 6 with one weakened link at every position, random graphs over up to 6 types, in '
+        'with every edge kind, checked schemas and types that are bare references or choices, chains up to length 6 with one weakened link at every position, random graphs over up to 6 types, in '
         'both registration styles; an independent python oracle computes instantiability and mandatory chains.',
    note='Trusted: Coq kernel; model tied by correspondence (104 verdict, shape of the example); schema text printer and python oracle. '
         'The correspondence runs the model with check_fuel + 4000. Only value shortcuts are links. No axioms.',
